@@ -4,6 +4,7 @@ import random
 from .runner import words_of
 
 PREEMPT = [0.01, 0.03, 0.1, 0.3]
+CLOCKQ = [1_000_000, 10_000_000, 100_000_000, 1_000_000_000]  # coarse simulated clock: 1 ms .. 1 s
 
 
 def nwords(n):
@@ -33,6 +34,8 @@ def s_run(rng, budget_words=2600):
              preempt=rng.choice(PREEMPT), warm=1 if rng.random() < 0.33 else 0)
     if K <= 4 and rng.random() < 0.3:
         j["gens"] = rng.choice([2, 3])  # thread churn: workers come in successive generations
+    if rng.random() < 0.25:
+        j["clockq"] = rng.choice(CLOCKQ)  # every clock read returns a multiple of the quantum
     # keep the run inside the per-run budget: first shrink the biggest size, then D
     while words_of(j) > budget_words:
         m = max(j["sizes"])
@@ -84,7 +87,17 @@ def g_run(rng):
              **{"yield": rng.randint(0, 1)})
     if rng.random() < 0.5:
         j["extra_flags"] = ["-Zmiri-address-reuse-rate=1.0", "-Zmiri-address-reuse-cross-thread-rate=1.0"]
+    if rng.random() < 0.5:
+        j["clockq"] = rng.choice(CLOCKQ)
     return j
+
+
+def c_run(rng):
+    """Coarse clock: many threads start together and draw a few multi-word tables while every clock read
+    (Instant, SystemTime) returns a multiple of a large quantum, so threads observe equal timestamps."""
+    return _job("C", rng, K=rng.choice([2, 4, 8, 16]), D=rng.choice([2, 4, 8]), sizes=[rng.choice([7, 8, 8, 9])],
+                types=rng.choice(["lut", "static", "both"]), main=rng.randint(0, 1), warm=rng.randint(0, 1), preempt=rng.choice(PREEMPT),
+                clockq=rng.choice(CLOCKQ[1:]), gens=rng.choice([1, 1, 2]), **{"yield": rng.randint(0, 1)})
 
 
 def o_run(rng, op):
@@ -127,6 +140,9 @@ def make_plan(seed, tier):
         # G — thread churn
         for _ in range(6):
             jobs.append(g_run(rng))
+        # C — coarse clock
+        for _ in range(6):
+            jobs.append(c_run(rng))
         n_s = 64
     else:
         for typ, n in combos:
@@ -146,6 +162,8 @@ def make_plan(seed, tier):
                 jobs.append(o_run(rng, op))
         for _ in range(48):
             jobs.append(g_run(rng))
+        for _ in range(48):
+            jobs.append(c_run(rng))
         # W — wide and long: 16k single-word draws under contention (several 64 KiB-of-output boundaries of any
         # process-wide generator state fall inside the run)
         for i in range(8):
